@@ -341,6 +341,11 @@ def z1(spec):
     """AeroPoint, one symmetric CRM surface, viscous + wave drag, every geometry DV."""
     nx, ny = spec.get("nx", 2), spec.get("ny", 5)
     md, mesh, twist_cp = _gen_mesh(spec.get("wing_type", "CRM"), nx, ny, True, num_twist_cp=3)
+    if spec.get("right"):
+        # the symmetric half given as the right wing (centreline first): VortexMesh has its own branch for it
+        mesh = mesh[:, ::-1, :].copy()
+        mesh[:, :, 1] *= -1.0
+        _early("mesh:right", mesh)
     span = _span_of(mesh, True)
     s = _aero_surface(
         "wing",
@@ -464,11 +469,18 @@ def z4(spec):
     """AeroPoint with compressible=True (Prandtl-Glauert pipeline), CRM symmetric."""
     nx, ny = spec.get("nx", 2), spec.get("ny", 5)
     md, mesh, twist_cp = _gen_mesh("CRM", nx, ny, True, num_twist_cp=3)
+    if spec.get("right"):
+        mesh = mesh[:, ::-1, :].copy()
+        mesh[:, :, 1] *= -1.0
+        _early("mesh:right", mesh)
     s = _aero_surface("wing", mesh, True, twist_cp, viscous=True, wave=True, t_over_c_cp=np.array([0.12]))
     flight4 = dict(FLIGHT_CRUISE)
     flight4["beta"] = (0.0, "deg")
-    prob, pn = _aero_problem(spec, [s], flight4, compressible=True)
-    inputs = _flight_inputs(mach=(0.3, 0.8)) + [
+    rot = bool(spec.get("rotational"))
+    if rot:
+        flight4["omega"] = (np.array([3.0, 2.0, -1.0]), "deg/s")
+    prob, pn = _aero_problem(spec, [s], flight4, compressible=True, rotational=rot)
+    inputs = _flight_inputs(mach=(0.3, 0.8)) + ([Inp("omega", np.array([3.0, 2.0, -1.0]), "abs", -6.0, 6.0, special=[0.0])] if rot else []) + [
         Inp("beta", 0.0, "uni", -4.0, 4.0, special=[0.0]),
         Inp("wing.twist_cp", twist_cp, "abs", -2.0, 2.0),
         Inp("wing.t_over_c_cp", np.array([0.12]), "rel", -0.2, 0.2),
@@ -489,32 +501,39 @@ def z5(spec):
     sym = bool(spec.get("sym", True))
     if spec.get("user_meshes"):
         return _z5_user_meshes(spec)
-    sec_chord_cp = [np.array([1.0, 1.0]), np.array([1.0, 1.0])]
+    # spec['nsec3']: three sections with the root section in the middle - with symmetry off that is the only way
+    # to reach the mesh generator's right-wing branch; spec['tc']: per-section t/c control points, viscous drag on,
+    # the unified t/c connected into the performance group as the documented two-section viscous example does
+    nsec = 3 if spec.get("nsec3") else 2
+    with_tc = bool(spec.get("tc"))
+    sec_chord_cp = [np.array([1.0, 1.0]) for _ in range(nsec)]
     surface = {
         "name": "surface",
         "is_multi_section": True,
-        "num_sections": 2,
-        "sec_name": ["sec0", "sec1"],
+        "num_sections": nsec,
+        "sec_name": ["sec%d" % i for i in range(nsec)],
         "symmetry": sym,
         "S_ref_type": "wetted",
         "root_section": 1,
-        "taper": [1.0, 1.0],
-        "span": [1.0, 1.0],
-        "sweep": [0.0, 0.0],
+        "taper": [1.0, 1.0, 0.8][:nsec],
+        "span": [1.0, 1.0, 1.0][:nsec],
+        "sweep": [0.0, 0.0, 0.0][:nsec],
         "chord_cp": sec_chord_cp,
-        "twist_cp": [np.zeros(2), np.zeros(2)],
+        "twist_cp": [np.zeros(2) for _ in range(nsec)],
         "root_chord": 1.0,
         "meshes": "gen-meshes",
         "nx": 2,
-        "ny": [ny, ny],
+        "ny": [ny] * nsec,
         "CL0": 0.0,
         "CD0": 0.015,
         "k_lam": 0.05,
         "c_max_t": 0.303,
-        "with_viscous": False,
+        "with_viscous": with_tc,
         "with_wave": False,
         "groundplane": False,
     }
+    if with_tc:
+        surface["t_over_c_cp"] = [np.array([0.15]), np.array([0.12]), np.array([0.1])][:nsec]
     prob = om.Problem(reports=False)
     flight = {
         "v": (1.0, "m/s"),
@@ -529,7 +548,7 @@ def z5(spec):
     surface["mesh"] = unify_mesh(section_surfaces)
     prob.model.add_subsystem(
         "surface",
-        MultiSecGeometry(surface=surface, joining_comp=True, dim_constr=[np.array([1, 0, 0]), np.array([1, 0, 0])]),
+        MultiSecGeometry(surface=surface, joining_comp=True, dim_constr=[np.array([1, 0, 0]) for _ in range(nsec)]),
     )
     user_surfaces = [surface]
     pn = "aero_point_0"
@@ -539,17 +558,23 @@ def z5(spec):
     uni = "surface.surface_unification.surface_uni_mesh"
     prob.model.connect(uni, pn + ".surface.def_mesh")
     prob.model.connect(uni, pn + ".aero_states.surface_def_mesh")
+    if with_tc:
+        prob.model.connect("surface.surface_unification.surface_uni_t_over_c", pn + ".surface_perf.t_over_c")
     _setup(prob, spec)
     inputs = [
         Inp("v", 1.0, "rel", -0.15, 0.15),
         Inp("alpha", 10.0, "uni", 2.0, 10.0),
         Inp("rho", 0.38, "rel", -0.2, 0.2),
         Inp("cg", np.zeros(3), "abs", -0.5, 0.5, special=[0.0]),
-        Inp("surface.sec0.chord_cp", np.ones(2), "uni", 0.7, 1.3, special=[1.0]),
-        Inp("surface.sec1.chord_cp", np.ones(2), "uni", 0.7, 1.3, special=[1.0]),
-        Inp("surface.sec0.twist_cp", np.zeros(2), "uni", -3.0, 3.0, special=[0.0]),
-        Inp("surface.sec1.twist_cp", np.zeros(2), "uni", -3.0, 3.0, special=[0.0]),
     ]
+    for i in range(nsec):
+        inputs.append(Inp("surface.sec%d.chord_cp" % i, np.ones(2), "uni", 0.7, 1.3, special=[1.0]))
+    for i in range(nsec):
+        inputs.append(Inp("surface.sec%d.twist_cp" % i, np.zeros(2), "uni", -3.0, 3.0, special=[0.0]))
+    if with_tc:
+        inputs.append(Inp("re", 1.0e5, "rel", -0.3, 0.3))
+        for i in range(nsec):
+            inputs.append(Inp("surface.sec%d.t_over_c_cp" % i, np.array(surface["t_over_c_cp"][i]), "rel", -0.2, 0.2))
     of = [pn + ".CL", pn + ".CD", pn + ".CM", pn + ".total_perf.moment.M", "surface.surface_joining.section_separation"]
     return Model(spec, prob, inputs, of, [i.name for i in inputs], [surface] + list(section_surfaces))
 
@@ -627,8 +652,9 @@ def z6(spec):
     from openaerostruct.structures.struct_groups import SpatialBeamAlone
 
     nx, ny = spec.get("nx", 2), spec.get("ny", 5)
-    md, mesh, twist_cp = _gen_mesh("CRM", nx, ny, True, num_twist_cp=3)
-    s = {"name": "wing", "symmetry": True, "mesh": mesh, "t_over_c_cp": np.array([0.15]), "thickness_cp": np.array([0.05, 0.1, 0.15])}
+    sym6 = not spec.get("full")  # full span: clamped in the middle, MonotonicConstraint's two-sided branch
+    md, mesh, twist_cp = _gen_mesh("CRM", nx, ny, sym6, num_twist_cp=3)
+    s = {"name": "wing", "symmetry": sym6, "mesh": mesh, "t_over_c_cp": np.array([0.15]), "thickness_cp": np.array([0.05, 0.1, 0.15])}
     s.update(_tube_props(exact_failure_constraint=bool(spec.get("exact", False)), struct_weight_relief=bool(spec.get("relief", False))))
     if spec.get("radius_cp"):
         s["radius_cp"] = np.array([0.3, 0.5, 0.7])  # spar radius prescribed instead of derived from t/c and chord
@@ -900,6 +926,10 @@ def z8(spec):
     s = _aero_surface("wing", mesh, True, twist_cp, viscous=True, wave=bool(spec.get("wave", False)),
                       thickness_cp=np.array([0.1, 0.2, 0.3]))
     s.update(_tube_props(struct_weight_relief=bool(spec.get("relief", False)), exact_failure_constraint=bool(spec.get("exact", False))))
+    if spec.get("geo"):
+        # planform design variables on an aerostructural surface (AerostructGeometry promotes them)
+        s["sweep"] = 0.0
+        s["taper"] = 1.0
     if spec.get("stiff"):
         s["E"] *= spec["stiff"]
         s["G"] *= spec["stiff"]
@@ -931,7 +961,8 @@ def z8(spec):
         Inp("wing.twist_cp", twist_cp, "abs", -2.0, 2.0),
         Inp("wing.thickness_cp", np.array([0.1, 0.2, 0.3]), "rel", -0.3, 0.5),
         Inp("wing.geometry.t_over_c_cp", np.array([0.15]), "rel", -0.2, 0.2),
-    ]
+    ] + ([Inp("wing.sweep", 0.0, "uni", -3.0, 8.0, special=[0.0]), Inp("wing.taper", 1.0, "uni", 0.8, 1.1, special=[1.0])]
+         if spec.get("geo") else [])
     pn = "AS_point_0"
     of = [pn + ".fuelburn", pn + ".L_equals_W", pn + ".wing_perf.failure", pn + ".CM", pn + ".total_perf.moment.M",
           pn + ".CL", pn + ".CD", pn + ".wing_perf.thickness_intersects", "wing.structural_mass"]
@@ -1053,7 +1084,10 @@ def z11(spec):
         flight["height_agl"] = (30.0, "m")
     if comp:
         flight["beta"] = (0.0, "deg")
-    prob, coupled = _as_problem(spec, [s], flight, compressible=comp, ground=ground)
+    rot = bool(spec.get("rotational")) and comp
+    if rot:
+        flight["omega"] = (np.array([2.0, 1.5, -1.0]), "deg/s")
+    prob, coupled = _as_problem(spec, [s], flight, compressible=comp, ground=ground, rotational=rot)
     inputs = _as_inputs(flight, mach=(0.3, 0.7)) + [
         Inp("wing.twist_cp", twist_cp, "abs", -2.0, 2.0),
         Inp("wing.thickness_cp", np.array([0.1, 0.2, 0.3]), "rel", -0.3, 0.5),
@@ -1062,6 +1096,9 @@ def z11(spec):
         inputs.append(Inp("height_agl", 30.0, "uni", 10.0, 200.0, special=[8000.0]))
     if comp:
         inputs.append(Inp("beta", 0.0, "uni", -4.0, 4.0, special=[0.0]))
+    if rot:
+        inputs.append(Inp("omega", np.array([2.0, 1.5, -1.0]), "abs", -4.0, 4.0, special=[0.0]))
+        inputs.append(Inp("AS_point_0.coupled.aero_states.cg", np.zeros(3), "abs", -1.0, 1.0, special=[0.0]))
     pn = "AS_point_0"
     of = [pn + ".fuelburn", pn + ".L_equals_W", pn + ".wing_perf.failure", pn + ".CM", pn + ".total_perf.moment.M", pn + ".CL", pn + ".CD"]
     return Model(spec, prob, inputs, of, [i.name for i in inputs], [s, md], coupled=coupled)
@@ -1232,6 +1269,16 @@ def z13(spec):
         rank = 0
         size = 1
 
+    # spec['write']: the builder's default - a Tecplot panel file and a lift-distribution file per evaluation - onto the
+    # simulated disk (sim/simdisk.py); otherwise the writers are switched off
+    out_dir = None
+    if spec.get("write"):
+        from . import simdisk
+
+        out_dir = simdisk.install().mkdir()
+    # (the builder's own write_solution=True also adds LiftDistribution, which calls np.trapz - removed from the numpy
+    # installed here, so that component cannot run at all in this sandbox, with or without the machinery (it is also why
+    # the baseline's MPhys tests fail). The contour writer is therefore wired in alone, the way AeroFuncsGroup does it.)
     bopts = {"write_solution": False}
     if not compressible:
         bopts["compressible"] = False  # the builder's documented default is True
@@ -1259,6 +1306,12 @@ def z13(spec):
     pt.add_subsystem("states", AeroSolverGroup(surfaces=surfaces, compressible=compressible), promotes=["*"])
     pt.add_subsystem("muxer", MuxSurfaceForces(surfaces=surfaces), promotes=["*"])
     pt.add_subsystem("funcs", builder.get_post_coupling_subsystem("aero_point_0"), promotes=["*"])
+    if out_dir is not None:
+        from openaerostruct.mphys.surface_contours import SurfaceContour
+
+        proms_w = [(sf["name"] + "_sec_forces", sf["name"] + ".sec_forces") for sf in surfaces]
+        pt.add_subsystem("contour_writer", SurfaceContour(surfaces=surfaces, base_name="aero_point_0", output_dir=out_dir),
+                         promotes_inputs=proms_w + ["*"])
     if spec.get("user_sref"):
         m.connect("S_ref_total", "aero_point_0.S_ref_total")
     m.connect("mesh.%s" % MPhysVariables.Aerodynamics.Surface.Mesh.COORDINATES,
@@ -1277,7 +1330,11 @@ def z13(spec):
     ] + ([Inp("S_ref_total", 15.0, "rel", -0.2, 0.2)] if spec.get("user_sref") else [])
     pn = "aero_point_0"
     of = [pn + ".CL", pn + ".CD", pn + ".CM", pn + ".wing.CL", pn + ".tail.CD", pn + "." + MPhysVariables.Aerodynamics.Surface.LOADS]
-    return Model(spec, prob, inputs, of, [i.name for i in inputs], [wing, tail, md1, md2])
+    mdl = Model(spec, prob, inputs, of, [i.name for i in inputs], [wing, tail, md1, md2])
+    if out_dir is not None:
+        simdisk.attach(prob, out_dir)
+        mdl.notes["disk_dir"] = out_dir
+    return mdl
 
 
 @entry("Z14")
@@ -1459,6 +1516,7 @@ SURF_OPT_CHOICES = [
     {"Wf_reserve": 0.0},  # no reserve fuel: with fuel_mass = 0 the tanks are exactly empty
     {"fem_origin": 0.35},  # a no-op for tube spars; on a wingbox surface it is a left-over key (accepted, documented as tube-only)
     {"k_lam": 0.0},  # fully turbulent: admissible, and the laminar/transition terms must drop out cleanly
+    {"k_lam": 1.0},  # fully laminar: the other end of the documented range, with its own branch in ViscousDrag
 ]
 
 
@@ -1472,14 +1530,20 @@ def variants():
         {"zoo": "Z3"},
         {"zoo": "Z3", "right": True},
         {"zoo": "Z3", "tail": True},
+        {"zoo": "Z1", "right": True},
         {"zoo": "Z4"},
+        {"zoo": "Z4", "rotational": True},
+        {"zoo": "Z4", "right": True},
         {"zoo": "Z5"},
         {"zoo": "Z5", "sym": False},
         {"zoo": "Z5", "user_meshes": True},
+        {"zoo": "Z5", "tc": True},
+        {"zoo": "Z5", "sym": False, "nsec3": True, "tc": True},
         {"zoo": "Z6"},
         {"zoo": "Z6", "exact": True},
         {"zoo": "Z6", "relief": True},
         {"zoo": "Z6", "extras": True},
+        {"zoo": "Z6", "extras": True, "full": True},
         {"zoo": "Z6", "radius_cp": True},
         {"zoo": "Z7"},
         {"zoo": "Z7", "exact": True},
@@ -1487,18 +1551,22 @@ def variants():
         {"zoo": "Z8", "wave": True, "relief": True},
         {"zoo": "Z8", "exact": True},
         {"zoo": "Z8", "pm": True},
+        {"zoo": "Z8", "geo": True},
         {"zoo": "Z9"},
         {"zoo": "Z9", "rotational": True},
         {"zoo": "Z9", "same_shape": True},
         {"zoo": "Z10"},
         {"zoo": "Z10", "no_reserve": True},
         {"zoo": "Z11", "compressible": True},
+        {"zoo": "Z11", "compressible": True, "rotational": True},
         {"zoo": "Z11", "ground": True},
         {"zoo": "Z12", "wingbox": False},
         {"zoo": "Z12", "wingbox": True},
         {"zoo": "Z13"},
         {"zoo": "Z13", "compressible": True},
         {"zoo": "Z13", "user_sref": True},
+        {"zoo": "Z13", "write": True},
+        {"zoo": "Z13", "write": True, "compressible": True},
         {"zoo": "Z14"},
         {"zoo": "Z15"},
     ]
